@@ -145,9 +145,12 @@ TaskGraphOKFor(dd, k, o, g, Old, full) ==
     /\ PickerWiringOK(dd, k, g, New)
 TaskGraphOK(dd, k, o, g) == TaskGraphOKFor(dd, k, o, g, {}, FALSE)
 
-(* a pipeline-level user cache (optional field cache_type of the description) and functions with cache=True *)
+(* a pipeline-level user cache (optional field cache_type of the description).  Which nodes it keeps is not      *)
+(* constrained here: cache=True functions, and under an active construct_dag() every function (`use_cache = ... *)
+(* or task_graph() is not None` in Pipeline._run stores each node in the cache in use), so Cached ignores the    *)
+(* per-function flag.                                                                                            *)
 UserCache(dd) == "cache_type" \in DOMAIN dd /\ dd.cache_type # ""
-Cached(dd, i) == UserCache(dd) /\ dd.funcs[i].cache
+Cached(dd, i) == UserCache(dd)
 (* with M = the invocations made for earlier handles: which needed functions MAY be old is the cache's business  *)
 (* (don't-care), but only a cached function invoked before with identical resolved arguments can be            *)
 MayBeOld(dd, k, o, M) == {i \in Needed(dd, k, o) : Cached(dd, i) /\ <<i, ArgsOf(dd, k, i)>> \in M}
